@@ -423,3 +423,37 @@ package s3db
 //@   loop 1 invariant forall j int :: imp(0 <= j && j <= rangeindex && splitKey(args_cur[j]) == "entries_per_node", table.S3Options.EntriesPerNode == int(parseInt(splitVal(args_cur[j]), 0, 32)))
 //@   loop 1 invariant forall j int :: imp(0 <= j && j <= rangeindex && splitKey(args_cur[j]) == "node_cache_entries", table.S3Options.NodeCacheEntries == int(parseInt(splitVal(args_cur[j]), 0, 32)))
 //@   loop 1 invariant forall j int :: imp(0 <= j && j <= rangeindex && splitKey(args_cur[j]) == "readonly", table.S3Options.ReadOnly)
+
+// ---------------------------------------------------------------------------
+// Transactions (property C05): BEGIN keeps a clone of the tree, ROLLBACK swaps
+// it back, COMMIT publishes and forgets it; a failed commit keeps it so that
+// the rollback that follows restores the rows visible before BEGIN.
+
+//@ spec vtOK(c *VirtualTable) bool = c != nil && c.Tree != nil && c.Tree.Root != nil && dbOK(c.Tree.Root)
+
+//@ func (*VirtualTable).Begin
+//@   requires vtOK(c)
+//@   modifies c.txStart
+//@   ensures already: imp(old(c.txStart) != nil, result != nil && c.txStart == old(c.txStart))
+//@   ensures snapshot: imp(result == nil, c.txStart != nil && fresh(c.txStart) && dbOK(c.txStart) && *c.txStart.crdt.Mast == *c.Tree.Root.crdt.Mast && c.txStart.crdt.Mast != c.Tree.Root.crdt.Mast && c.txStart.readonly == c.Tree.Root.readonly)
+//@   ensures failed: imp(result != nil && old(c.txStart) == nil, c.txStart == nil)
+//@   ensures no-effects: puts == old(puts) && deletes == old(deletes)
+
+//@ func (*VirtualTable).Commit
+//@   requires vtOK(c)
+//@   modifies c.txStart, puts, deletes, lastPutPrefix, lastPutName, lastPutOK, *c.Tree.Root.crdt.Mast, c.Tree.Root.mergedRoots, c.Tree.Root.crdt.MergeSources, c.Tree.Root.crdt.Source, c.Tree.Root.tombstoned
+//@   ensures success: imp(result == nil, c.txStart == nil)
+//@   ensures failure-keeps-snapshot: imp(result != nil, c.txStart == old(c.txStart) && deletes == old(deletes))
+//@   ensures readonly: imp(c.Tree.Root.readonly, puts == old(puts) && deletes == old(deletes))
+
+//@ func (*VirtualTable).Rollback
+//@   requires c != nil && c.Tree != nil && c.Tree.Root != nil
+//@   modifies c.txStart, c.Tree.Root
+//@   ensures restored: imp(old(c.txStart) != nil, c.Tree.Root == old(c.txStart))
+//@   ensures untouched: imp(old(c.txStart) == nil, c.Tree.Root == old(c.Tree.Root))
+//@   ensures result == nil && c.txStart == nil && puts == old(puts) && deletes == old(deletes)
+
+//@ func (*Cursor).Column
+//@   requires c != nil
+//@   modifies nothing
+//@   ensures imp(err == nil, sqlTyped(result0))
